@@ -53,6 +53,12 @@ def run(ck):
     q = ck.quick()
     cases = gen_ops.gen_cases(params, ck.rng, rows_per_w=(3 if q else 10 ** 6), nrand=(30 if q else 12))
     fails, corr = check_cases(ck, cases, exes, model)
+    if not fails and (corr or not ck.proof["ok"]):
+        # a proof obligation or the correspondence broke: search every row of every table for a failing input
+        more = gen_ops.gen_cases(params, ck.rng, rows_per_w=10 ** 6, nrand=4)
+        f2, c2 = check_cases(ck, more, exes, model)
+        cases += more; fails += f2; corr += c2
+        ck.cov["search"] = "all %d rows x boundary operands (%d extra cases) after a broken obligation/correspondence" % (sum(len(d["rows"]) for d in params.values()), len(more))
     seen = {}
     for s, l in cases:
         seen.setdefault(s, set()).add(l)
